@@ -132,14 +132,14 @@ fn live_actor() -> String {
 pub fn live_setup(seed: u64, perturb_permille: u64) {
     SEED.store(seed.wrapping_mul(0x2545F4914F6CDD1D) | 1, Ordering::Relaxed);
     PERTURB.store(perturb_permille, Ordering::Relaxed);
-    LIVE_LOG.lock().unwrap().clear();
+    LIVE_LOG.lock().unwrap_or_else(|e| e.into_inner()).clear();
     MODE.store(MODE_LIVE, Ordering::SeqCst);
 }
 pub fn live_take() -> Vec<Raw> {
-    std::mem::take(&mut *LIVE_LOG.lock().unwrap())
+    std::mem::take(&mut *LIVE_LOG.lock().unwrap_or_else(|e| e.into_inner()))
 }
 pub fn live_snapshot() -> Vec<Raw> {
-    LIVE_LOG.lock().unwrap().clone()
+    LIVE_LOG.lock().unwrap_or_else(|e| e.into_inner()).clone()
 }
 pub fn live_stop() {
     MODE.store(MODE_OFF, Ordering::SeqCst);
@@ -254,7 +254,7 @@ fn after(ev: &Ev, r: u64, flag: u8) {
                 return;
             }
             HOLD.set(false);
-            LIVE_LOG.lock().unwrap().push(mk(live_actor(), ev, r, flag));
+            LIVE_LOG.lock().unwrap_or_else(|e| e.into_inner()).push(mk(live_actor(), ev, r, flag));
             LIVE_EVENTS.fetch_add(1, Ordering::Relaxed);
             logunlock();
         }
@@ -356,7 +356,7 @@ fn note(kind: &'static str, what: &str) {
         }
         MODE_LIVE => {
             loglock();
-            LIVE_LOG.lock().unwrap().push(note_raw(live_actor(), kind, what));
+            LIVE_LOG.lock().unwrap_or_else(|e| e.into_inner()).push(note_raw(live_actor(), kind, what));
             logunlock();
         }
         _ => {}
@@ -413,7 +413,7 @@ fn api(kind: &'static str, name: &str, a1: u64, a2: u64) {
         }
         MODE_LIVE => {
             loglock();
-            LIVE_LOG.lock().unwrap().push(r(live_actor()));
+            LIVE_LOG.lock().unwrap_or_else(|e| e.into_inner()).push(r(live_actor()));
             logunlock();
         }
         _ => {}
